@@ -1399,23 +1399,57 @@ fn reference_rrset(answers: &[GRec], qname: &GName, qclass: u16, want: u16) -> S
 pub fn gen_rrset(r: &mut Rng, _i: u64) -> String {
     let want = *r.pick(&[T_A, T_A, T_A, T_AAAA, T_MX, T_TXT, T_NS, T_CNAME, T_SOA, T_NULL, T_HINFO]);
     let want = if r.chance(1, 6) { *r.pick(&ALL_TYPES) } else { want };
-    let names: Vec<GName> = (0..5)
+    // one case in fifteen is long: up to 40 names in the chain, up to 300 data records
+    let long = r.chance(1, 15);
+    let pool_n: usize = if long { 41 } else { 5 };
+    let names: Vec<GName> = (0..pool_n)
         .map(|i| GName {
             labels: vec![format!("n{}", i).into_bytes(), b"Example".to_vec(), b"org".to_vec()],
         })
         .collect();
+    // now and then one name of the pool (the question name and the end of the chain included) is the
+    // root or a single label
+    let mut names = names;
+    if r.chance(1, 8) {
+        let k = r.below(pool_n.min(5) as u64) as usize;
+        names[k] = GName::root();
+    }
+    if r.chance(1, 8) {
+        let k = r.below(pool_n.min(5) as u64) as usize;
+        if !names[k].labels.is_empty() {
+            names[k] = GName { labels: vec![b"org".to_vec()] };
+        }
+    }
+    // owners related to `n` as label prefixes / extensions (never equal to it): `n` with labels
+    // appended, `n` cut after its first one or two labels, the root
+    fn related(r: &mut Rng, n: &GName) -> GName {
+        let mut l = n.labels.clone();
+        match r.below(4) {
+            0 => {
+                l.push(b"edge".to_vec());
+                l.push(b"net".to_vec());
+            }
+            1 => l.truncate(1),
+            2 => l.truncate(2),
+            _ => l.clear(),
+        }
+        if l.len() == n.labels.len() {
+            l.push(b"x".to_vec());
+        }
+        GName { labels: l }
+    }
     let qname = names[0].clone();
     let qclass: u16 = if r.chance(1, 12) { 3 } else { 1 };
     let mut answers: Vec<GRec> = Vec::new();
     // CNAME edges
-    let chain_len = r.below(5) as usize;
-    let mut order: Vec<usize> = (0..5).collect();
+    let chain_len = if long { r.range(5, 40) as usize } else { r.below(5) as usize };
+    let mut order: Vec<usize> = (0..pool_n).collect();
     // shuffle targets a bit
     for i in (1..order.len()).rev() {
         let j = r.range(1, i as u64) as usize;
         order.swap(i, j);
     }
-    for i in 0..chain_len.min(4) {
+    for i in 0..chain_len.min(pool_n - 1) {
         let from = names[order[i]].clone();
         let to = names[order[i + 1]].clone();
         answers.push(GRec {
@@ -1431,7 +1465,7 @@ pub fn gen_rrset(r: &mut Rng, _i: u64) -> String {
         0 => {
             // loop back
             if chain_len > 0 {
-                let from = names[order[chain_len.min(4)]].clone();
+                let from = names[order[chain_len.min(pool_n - 1)]].clone();
                 answers.push(GRec {
                     owner: from,
                     rtype: T_CNAME,
@@ -1455,11 +1489,28 @@ pub fn gen_rrset(r: &mut Rng, _i: u64) -> String {
         }
         _ => {}
     }
+    if r.chance(1, 6) {
+        // a CNAME whose owner is only a label prefix / extension of a name on the chain
+        let k = r.below(chain_len.min(pool_n - 1) as u64 + 1) as usize;
+        let owner = related(r, &names[order[k]]);
+        answers.push(GRec {
+            owner,
+            rtype: T_CNAME,
+            rclass: qclass,
+            ttl: 7,
+            data: GData::Dn(names[order[pool_n - 1]].clone()),
+            rdlen_delta: 0,
+        });
+    }
     // data records for the end of the chain (and decoys elsewhere)
-    let end = names[order[chain_len.min(4)]].clone();
-    let n_data = r.below(4);
+    let end = names[order[chain_len.min(pool_n - 1)]].clone();
+    let n_data = if long && r.chance(1, 2) { r.range(250, 300) } else { r.below(4) };
     for _ in 0..n_data {
-        let owner = if r.chance(5, 6) { end.clone() } else { r.pick(&names).clone() };
+        let owner = match r.below(8) {
+            0 => r.pick(&names).clone(),
+            1 => related(r, &end),
+            _ => end.clone(),
+        };
         answers.push(GRec {
             owner: if r.chance(1, 3) { owner.flip_case(r) } else { owner },
             rtype: if r.chance(7, 8) { want } else { *r.pick(&ALL_TYPES) },
@@ -1573,6 +1624,9 @@ pub fn gen_rrset(r: &mut Rng, _i: u64) -> String {
     let ext_rcode = (m.flags & 0xF) as u32 | ((first_opt_ext.unwrap_or(0) as u32) << 4);
     let gate_closed = !mutated
         && (m.flags & 0x8000 == 0 || m.flags & 0x0200 != 0 || m.questions.len() != 1 || ext_rcode != 0);
+    if buf.len() > 65535 {
+        return format!("rrset {} {}", type_name(want), to_hex(&buf));
+    }
     if clean {
         let exp = reference_rrset(&m.sections[0], &m.questions[0].0, m.questions[0].2, want);
         format!("rrset {} {} exp={}", type_name(want), to_hex(&buf), exp)
